@@ -2,68 +2,96 @@ import LunarVerif.Proofs.C14Holds
 /-!
 # C14 — Traffic a flow or policy must see is always registered as managed
 
-Property theorems only (helpers: `Proofs/Regex.lean`, `Proofs/C14*.lean`).
+Property theorems only (helpers: `Proofs/Regex.lean`, `Proofs/C14*.lean`).  State AFTER the repairs F14a (every
+literal part quoted with `regexp.QuoteMeta`), F14f (every part the URL tree treats as a parameter is one for the
+expression), F14c (host labels: parameters and a trailing `*`), F14b (a filter without methods is registered
+with an any-method expression) and the trie repairs of C03/C13.
 
 Reading.  For every declaration the engine loads (flow filter / endpoint policy: methods `M`, URL pattern `P`)
 and every request `(m, u)`: if the engine matches the request to the declaration, then the proxy forwards it:
 manage-all is set or some registered expression is FOUND (unanchored, as `map_reg … -m found`) in `m:::u`.
 One way only: nothing is claimed about requests the proxy forwards and the engine ignores.
 
-The unchanged code violates the full statement in six decidable classes (`Spec.C14.classify`, F14a–F14f); each
-has a machine-checked witness below that also replays on the real code (`corpus/C14/F14x.ops`).  Outside them:
-
-  * `format_parse_safe`              the TEXT that `HaproxyEndpointFormat` produces for a safe pattern is parsed by
-                                     the regex syntax (Go/PCRE precedence rules) as exactly the intended AST;
-  * `managed_covers_engine_partial`  that AST matches the subject of every URL the declarative matcher accepts
-                                     (declarative `Search`), hence the executable search on the text succeeds;
-  * `c14_holds_partial`              CONNECTION: on the model's own answers the judge predicate never reports a
-                                     violation outside the six classes, for every configuration and request.
+  * `format_parse`           the TEXT `HaproxyEndpointFormat` produces for ANY pattern `validateURL` accepts (`safe`
+                             is structure only: host labels, then path segments, `*` last) is parsed by the regex
+                             syntax as exactly the intended AST — no alphabet restriction any more;
+  * `managed_covers_engine`  that AST matches the subject of every URL the declarative matcher accepts (no
+                             excluded class: the former hypotheses "no metacharacter", "parameter names in
+                             `[a-zA-Z0-9-_]+`", "parameters only in the path" are gone);
+  * `c14_holds_partial`      CONNECTION: on the model's own answers the judge predicate never reports a
+                             violation outside the two classes that stay open (F14d trimming, F14e engine
+                             over-match), for every configuration and request within the input assumptions.
 -/
 namespace LunarVerif.C14
 open LunarVerif.UrlTree LunarVerif.UrlMatch LunarVerif.Regex
 
-/-- The executable regex search is the declarative one (both directions) — what ties `exprSearch`, and
-    through the differential run Go's `regexp`, to the semantics the other theorems speak about. -/
+/-- The executable regex search is the declarative one (both directions). -/
 theorem search_correct (r : Re) (s : List Char) : reSearch r s = true ↔ Search r s := reSearch_iff r s
 
-/-- For a SAFE pattern (host labels and literal segments without regex metacharacters — dots allowed in the
-    path —, parameters only in path position with names in `[a-zA-Z0-9-_]+`, `*` only as last path part) and a
-    metacharacter-free method, the text `HaproxyEndpointFormat` produces is read by the regex parser as exactly
-    the intended expression. -/
-theorem format_parse_safe (m : String) (P : Pattern) (hs : safe P = true) (hm : safeMethod m = true) :
-    parseRe (formatEndpoint m.toList (render P)) = some (formatAST m.toList P) :=
-  parse_format_safe m.toList P hs (by simpa [safeMethod] using hm)
+/-- For every pattern of the shape `validateURL` accepts and a method that is an HTTP token (`some m`) or the
+    any-method expression (`none`), the text `HaproxyEndpointFormat` produces is read by the regex parser as
+    exactly the intended expression — whatever characters the literal parts contain. -/
+theorem format_parse (meth : Option String) (P : Pattern) (hs : safe P = true)
+    (hm : ∀ m, meth = some m → tokenMethod m = true) :
+    parseRe (formatEndpoint (methodText (meth.map String.toList)) (render P))
+      = some (formatAST (meth.map String.toList) P) := by
+  apply parse_format_safe _ P hs
+  intro m' hm'
+  cases meth with
+  | none => simp at hm'
+  | some m =>
+    simp only [Option.map_some, Option.some.injEq] at hm'
+    subst hm'
+    exact (tokenMethod_facts (hm m rfl)).2.1
 
-/-- C14 for one declaration, partial: outside the excluded classes (pattern not safe: F14a/c/f; text not in
-    canonical form: F14d is about strings and appears in `c14_holds_partial`), every URL that the declarative
-    matcher accepts for the pattern is FOUND by the registered expression, for every registered method. -/
-theorem managed_covers_engine_partial (m : String) (P : Pattern) (U : Url)
-    (hs : safe P = true) (hm : safeMethod m = true) (hu : urlWF U = true) (hmt : «matches» P U = true) :
-    Search (formatAST m.toList P) (subject m.toList (render U)) ∧
+/-- C14 for one declaration that names the method: every URL the declarative matcher accepts for the pattern is
+    FOUND by the registered expression. -/
+theorem managed_covers_engine (m : String) (P : Pattern) (U : Url)
+    (hs : safe P = true) (hm : tokenMethod m = true) (hu : urlWF U = true) (hmt : «matches» P U = true) :
+    Search (formatAST (some m.toList) P) (subject m.toList (render U)) ∧
     exprSearch (formatEndpoint m.toList (render P)) (subject m.toList (render U)) = true := by
-  have hm' : ∀ c ∈ m.toList, plainChar c = true := by simpa [safeMethod] using hm
-  exact ⟨search_of_full (covers_full m.toList P U hs hu hmt), exprSearch_safe m.toList P U hs hm' hu hmt⟩
+  obtain ⟨_, t2, _⟩ := tokenMethod_facts hm
+  have hmeth : (some m.toList : Option (List Char)) = some m.toList ∨
+      ((some m.toList : Option (List Char)) = none ∧ m.toList ≠ [] ∧ ∀ c ∈ m.toList, c ≠ ':') := Or.inl rfl
+  refine ⟨search_of_full (covers_full (some m.toList) m.toList P U hmeth hs hu hmt), ?_⟩
+  have := exprSearch_safe (some m.toList) m.toList P U hmeth
+    (fun m' hm' => by cases hm'; exact t2) hs hu hmt
+  simpa [methodText] using this
 
-/-- … and the expression is a FULL match of the subject's tail: it ends with `$` exactly when the pattern does
-    not end with `*` (the literal characters of the URL are matched literally, nothing more is accepted after
-    them). -/
+/-- … and for a declaration that names NO method (registered once, with `[^:]+` in place of the method): found
+    for EVERY method token (F14b repaired). -/
+theorem managed_covers_engine_any_method (m : String) (P : Pattern) (U : Url)
+    (hs : safe P = true) (hm : tokenMethod m = true) (hu : urlWF U = true) (hmt : «matches» P U = true) :
+    Search (formatAST none P) (subject m.toList (render U)) ∧
+    exprSearch (formatEndpoint anyMethodRegex (render P)) (subject m.toList (render U)) = true := by
+  obtain ⟨t1, _, t3⟩ := tokenMethod_facts hm
+  have hmeth : (none : Option (List Char)) = some m.toList ∨ ((none : Option (List Char)) = none ∧ m.toList ≠ [] ∧
+      ∀ c ∈ m.toList, c ≠ ':') := Or.inr ⟨rfl, t1, t3⟩
+  refine ⟨search_of_full (covers_full none m.toList P U hmeth hs hu hmt), ?_⟩
+  have := exprSearch_safe none m.toList P U hmeth (fun m' hm' => by cases hm') hs hu hmt
+  simpa [methodText] using this
+
+/-- The expression is a FULL match of the subject (literal characters matched literally, `$` unless the
+    pattern ends with `*`). -/
 theorem managed_full_match (m : String) (P : Pattern) (U : Url)
     (hs : safe P = true) (hu : urlWF U = true) (hmt : «matches» P U = true) :
-    Matches true (formatAST m.toList P) (subject m.toList (render U)) true :=
-  covers_full m.toList P U hs hu hmt
+    Matches true (formatAST (some m.toList) P) (subject m.toList (render U)) true :=
+  covers_full (some m.toList) m.toList P U (Or.inl rfl) hs hu hmt
 
-/-- Every supported method of every enabled declaration gets its expression registered (flows: one per
-    method of the comparable-filter group, default list when the filter names none; policies: one per enabled
-    plugin). -/
+/-- Every method an enabled declaration accepts has an expression registered for it: its own, or the
+    any-method one when the declaration names none. -/
 theorem every_method_registered (cfg : Cfg) (d : Decl) (method : String) (hd : d ∈ declsOf cfg)
-    (he : d.enabled = true) (hm : method ∈ d.supported) :
-    formatEndpoint method.toList d.url.toList ∈ registered cfg :=
+    (he : d.enabled = true) (hm : d.acceptsMethod method = true) :
+    ∃ meth : Option (List Char), (meth = some method.toList ∨ meth = none) ∧
+      formatEndpoint (methodText meth) d.url.toList ∈ registered cfg :=
   registered_mem cfg d method hd he hm
 
-/-- CONNECTION (partial form).  For every configuration, every request and ANY set of declared names the
-    engine may select: with the model's `managedB`, the judge's verdict is never a violation outside the known
-    classes.  (A selected declaration that is clean for the request forces `managedB = true`.) -/
+/-- CONNECTION (partial form: F14d and F14e stay open).  For every configuration and request within the input
+    assumptions (patterns `validateURL` accepts, canonical texts, token methods) and ANY set of declared names
+    the engine may select: with the model's `managedB`, the judge's verdict is never a violation outside the
+    open classes. -/
 theorem c14_holds_partial (cfg : Cfg) (method url : String) (sel : List String)
+    (hA : ∀ d ∈ declsOf cfg, untrimmed d url = true → assumptionsOK d method url = true)
     (hsel : ∀ n ∈ sel, (findDecl (declsOf cfg) n).isSome = true) :
     ∀ why, reqVerdict (declsOf cfg) method url sel (managedB cfg method url) ≠ .violated why := by
   intro why hv
@@ -93,50 +121,71 @@ theorem c14_holds_partial (cfg : Cfg) (method url : String) (sel : List String)
           rw [hfd] at hx
           simp only [Option.map_some, Option.some.injEq] at hx
           have hmem : d ∈ declsOf cfg := List.mem_of_find?_eq_some hfd
-          have := clean_managed cfg d method url hmem hx
+          have hun : untrimmed d url = true := by
+            unfold classify at hx
+            split at hx
+            · cases hx
+            · rename_i h; simpa using h
+          have := clean_managed cfg d method url hmem (hA d hmem hun) hx
           rw [this] at hnot
           exact absurd hnot.2 (by simp)
       · split at hv <;> cases hv
 
 /-- The property predicate itself, for a selection that contains a clean declaration. -/
 theorem selected_clean_is_managed (cfg : Cfg) (method url : String) (sel : List String) (d : Decl)
-    (hd : d ∈ declsOf cfg) (_hn : d.name ∈ sel) (hc : classify d method url = none) :
+    (hd : d ∈ declsOf cfg) (_hn : d.name ∈ sel) (ha : assumptionsOK d method url = true)
+    (hc : classify d method url = none) :
     reqOk sel (managedB cfg method url) = true := by
-  simp [reqOk, clean_managed cfg d method url hd hc]
+  simp [reqOk, clean_managed cfg d method url hd ha hc]
 
-/-! ### Witnesses: the full statement is false on the unchanged code (each replays: corpus/C14/F14x.ops) -/
+/-! ### Regressions: the witnesses of the repaired findings now PASS (corpus/C14/regress-F14x.ops) -/
 
 def pat (host : List String) (path : List Seg) : List Part :=
   host.map (fun h => ⟨true, .lit h⟩) ++ path.map (fun s => ⟨false, s⟩)
 
-/-- F14a: `api.com/a+b/{id}/c(1)` is registered as `GET:::api\.com/a+b/[^/]+/c(1)$`; the URL with these very
-    characters is accepted by the matcher but NOT found by the expression (`+` repeats, `(1)` groups). -/
-theorem metachar_violation_witness :
-    ∃ (P : Pattern) (U : Url) (m : String), «matches» P U = true ∧ urlWF U = true ∧
-      formatEndpoint m.toList (render P) = "GET:::api\\.com/a+b/[^/]+/c(1)$".toList ∧
-      exprSearch (formatEndpoint m.toList (render P)) (subject m.toList (render U)) = false ∧
-      exprSearch (formatEndpoint m.toList (render P)) "GET:::api.com/aab/7/c1".toList = true :=
-  ⟨pat ["api", "com"] [.lit "a+b", .par "id", .lit "c(1)"], pat ["api", "com"] [.lit "a+b", .lit "7", .lit "c(1)"],
-    "GET", by decide, by decide, by decide, by decide, by decide⟩
+/-- former F14a: `api.com/a+b/{id}/c(1)` is registered as `GET:::api\.com/a\+b/[^/]+/c\(1\)$`; the URL with these
+    very characters is found, its regex-reading `aab`/`c1` no longer is. -/
+theorem regress_F14a :
+    let P := pat ["api", "com"] [.lit "a+b", .par "id", .lit "c(1)"]
+    let U := pat ["api", "com"] [.lit "a+b", .lit "7", .lit "c(1)"]
+    safe P = true ∧ «matches» P U = true ∧ urlWF U = true ∧
+    formatEndpoint "GET".toList (render P) = "GET:::api\\.com/a\\+b/[^/]+/c\\(1\\)$".toList ∧
+    exprSearch (formatEndpoint "GET".toList (render P)) (subject "GET".toList (render U)) = true ∧
+    exprSearch (formatEndpoint "GET".toList (render P)) "GET:::api.com/aab/7/c1".toList = false := by
+  decide
 
-/-- F14b: a flow without methods is qualified by the engine for HEAD (the node requirement list is empty),
-    but the five registered expressions do not contain HEAD: not managed. -/
-theorem default_methods_witness :
-    ∃ (f : Flow), f.methods = [] ∧
-      methodOK ⟨[f], f.methods⟩ f "HEAD" = true ∧
-      flowGo [(pat ["api", "com"] [.lit "x"], some 0)] [] (pat ["api", "com"] [.lit "x"]) = [0] ∧
-      (registered (.flows [f])).length = 5 ∧
-      managedB (.flows [f]) "HEAD" f.url = false ∧ managedB (.flows [f]) "GET" f.url = true :=
-  ⟨⟨"f1", "api.com/x", []⟩, rfl, by decide, by decide, by decide, by decide, by decide⟩
+/-- former F14b: a flow without methods is registered ONCE, for any method: HEAD is managed. -/
+theorem regress_F14b :
+    let f : Flow := ⟨"f1", "api.com/x", []⟩
+    methodOK f "HEAD" = true ∧ (registered (.flows [f])).length = 1 ∧
+    registered (.flows [f]) = ["[^:]+:::api\\.com/x$".toList] ∧
+    managedB (.flows [f]) "HEAD" f.url = true ∧ managedB (.flows [f]) "GET" f.url = true := by
+  decide
 
-/-- F14c: a host-position parameter is not translated: `{sub}.api.com/x` stays `{sub}\.api\.com/x$`, which
-    no real host satisfies, while the matcher accepts `eu.api.com/x`. -/
-theorem host_param_witness :
-    ∃ (P : Pattern) (U : Url), «matches» P U = true ∧ urlWF U = true ∧
-      formatEndpoint "GET".toList (render P) = "GET:::{sub}\\.api\\.com/x$".toList ∧
-      exprSearch (formatEndpoint "GET".toList (render P)) (subject "GET".toList (render U)) = false :=
-  ⟨⟨true, .par "sub"⟩ :: pat ["api", "com"] [.lit "x"], pat ["eu", "api", "com"] [.lit "x"],
-    by decide, by decide, by decide, by decide⟩
+/-- former F14c: a host-position parameter is one host label for the expression too; a host-only pattern may
+    end with `*`. -/
+theorem regress_F14c :
+    let P : Pattern := ⟨true, .par "sub"⟩ :: pat ["api", "com"] [.lit "x"]
+    let U := pat ["eu", "api", "com"] [.lit "x"]
+    let Q : Pattern := [⟨true, .lit "api"⟩, ⟨true, .wild⟩]
+    safe P = true ∧ «matches» P U = true ∧ urlWF U = true ∧
+    formatEndpoint "GET".toList (render P) = "GET:::[^./]+\\.api\\.com/x$".toList ∧
+    exprSearch (formatEndpoint "GET".toList (render P)) (subject "GET".toList (render U)) = true ∧
+    exprSearch (formatEndpoint "GET".toList (render P)) "GET:::eu.x.api.com/x".toList = false ∧
+    safe Q = true ∧ formatEndpoint "GET".toList (render Q) = "GET:::api(\\..*)?".toList ∧
+    exprSearch (formatEndpoint "GET".toList (render Q)) "GET:::api.com/x/y".toList = true := by
+  decide
+
+/-- former F14f: `{user.id}` is a parameter for the expression as it is for the engine. -/
+theorem regress_F14f :
+    let P := pat ["api", "com"] [.lit "users", .par "user.id"]
+    let U := pat ["api", "com"] [.lit "users", .lit "7"]
+    safe P = true ∧ «matches» P U = true ∧ urlWF U = true ∧
+    formatEndpoint "GET".toList (render P) = "GET:::api\\.com/users/[^/]+$".toList ∧
+    exprSearch (formatEndpoint "GET".toList (render P)) (subject "GET".toList (render U)) = true := by
+  decide
+
+/-! ### Witnesses of what stays open (each replays: corpus/C14/F14x.ops) -/
 
 /-- F14d: the engine looks the request up after `strings.Trim(url, "./")`, the proxy searches the untrimmed
     subject: `api.com/x/` is the engine's `api.com/x` but is not found by `GET:::api\.com/x$`. -/
@@ -146,41 +195,47 @@ theorem trailing_slash_witness :
     exprSearch (formatEndpoint "GET".toList "api.com/x".toList) (subject "GET".toList "api.com/x".toList) = true := by
   decide
 
-/-- F14f: `{user.id}` is a parameter for the engine; its dot is escaped first, so the path-parameter rule no
-    longer recognises it and the braces stay literal text. -/
-theorem odd_param_witness :
-    ∃ (P : Pattern) (U : Url), «matches» P U = true ∧ urlWF U = true ∧
-      formatEndpoint "GET".toList (render P) = "GET:::api\\.com/users/{user\\.id}$".toList ∧
-      exprSearch (formatEndpoint "GET".toList (render P)) (subject "GET".toList (render U)) = false :=
-  ⟨pat ["api", "com"] [.lit "users", .par "user.id"], pat ["api", "com"] [.lit "users", .lit "7"],
-    by decide, by decide, by decide, by decide⟩
-
-/-- F14e: the engine's traversal selects the node of `api.com/x` for `api.com/x/extra` (loop break on the last
-    part, F03b) although the pattern does not match; the expression, correctly, does not cover it. -/
+/-- F14e: what is left of the engine's over-matching after the trie repairs: the host/path boundary is not
+    part of the trie key (constant children are keyed by value; the node keeps its creator's flag, F03e/F13c).
+    With `a.b/x` declared first, the later pattern `a/b/y` is filed under the HOST node `b`, so the traversal
+    selects it for `a.b/y`, which it does not match; the expression, correctly, does not cover it. -/
 theorem engine_overmatch_witness :
-    ∃ (P : Pattern) (U : Url), «matches» P U = false ∧ flowGo [(P, some 0)] [] U = [0] ∧
-      exprSearch (formatEndpoint "GET".toList (render P)) (subject "GET".toList (render U)) = false :=
-  ⟨pat ["api", "com"] [.lit "x"], pat ["api", "com"] [.lit "x", .lit "extra"], by decide, by decide, by decide⟩
+    ∃ (P1 P2 : Pattern) (U : Url), «matches» P2 U = false ∧ «matches» P1 U = false ∧
+      C03.lookupFlow [(P1, some 0), (P2, some 1)] U = [1] ∧
+      exprSearch (formatEndpoint "GET".toList (render P2)) (subject "GET".toList (render U)) = false ∧
+      exprSearch (formatEndpoint "GET".toList (render P1)) (subject "GET".toList (render U)) = false :=
+  ⟨pat ["a", "b"] [.lit "x"], pat ["a"] [.lit "b", .lit "y"], pat ["a", "b"] [.lit "y"],
+    by decide, by decide, by decide, by decide, by decide⟩
 
-/-- The converse is NOT claimed and is false: the search is unanchored on the left, and `.*`-free patterns
-    still accept what the engine refuses (`FORGET:::api.com/x` is found by `GET:::api\.com/x$`). -/
+/-- former F14e inputs, repaired by F03b/F03f: the traversal no longer selects `api.com/x` for
+    `api.com/x/extra`, nor lets a parameter accept an empty segment. -/
+theorem regress_F14e :
+    C03.lookupFlow [(pat ["api", "com"] [.lit "x"], some 0)] (pat ["api", "com"] [.lit "x", .lit "extra"]) = [] ∧
+    C03.lookupFlow [(pat ["api", "com"] [.lit "users", .par "id", .lit "posts"], some 0)]
+      (pat ["api", "com"] [.lit "users", .lit "", .lit "posts"]) = [] := by
+  decide
+
+/-- The converse is NOT claimed and is false: the search is unanchored on the left. -/
 theorem converse_fails_witness :
     exprSearch (formatEndpoint "GET".toList "api.com/x".toList) "FORGET:::api.com/x".toList = true := by
   decide
 
 /-! ### Non-vacuity -/
 
-/-- A safe pattern with dots in host and path, a port, a parameter and a trailing wildcard, and a URL it
-    accepts: the hypotheses of `managed_covers_engine_partial` are satisfiable, and its conclusion computes. -/
+/-- A pattern with metacharacters, dots in host and path, a port, parameters in host and path (one with an odd
+    name) and a trailing wildcard, and a URL it accepts: the hypotheses of `managed_covers_engine` are satisfiable
+    and its conclusion computes. -/
 example :
-    let P := pat ["api", "com:8080"] [.lit "v1.0", .par "user_id", .wild]
-    let U := pat ["api", "com:8080"] [.lit "v1.0", .lit "a.b", .lit "posts", .lit "7"]
-    safe P = true ∧ safeMethod "GET" = true ∧ urlWF U = true ∧ «matches» P U = true ∧
-    formatEndpoint "GET".toList (render P) = "GET:::api\\.com:8080/v1\\.0/[^/]+(/.*)?".toList ∧
+    let P : Pattern := ⟨true, .par "region"⟩ ::
+      pat ["api", "com:8080"] [.lit "v1.0", .par "user.id", .lit "a+b(1)", .wild]
+    let U := pat ["eu", "api", "com:8080"] [.lit "v1.0", .lit "a.b", .lit "a+b(1)", .lit "posts", .lit "7"]
+    safe P = true ∧ tokenMethod "GET" = true ∧ urlWF U = true ∧ «matches» P U = true ∧
+    formatEndpoint "GET".toList (render P)
+      = "GET:::[^./]+\\.api\\.com:8080/v1\\.0/[^/]+/a\\+b\\(1\\)(/.*)?".toList ∧
     exprSearch (formatEndpoint "GET".toList (render P)) (subject "GET".toList (render U)) = true := by
   decide
 
-/-- the same pattern without the wildcard ends with `$` and refuses the longer URL -/
+/-- the same kind of pattern without the wildcard ends with `$` and refuses the longer URL -/
 example :
     let P := pat ["api", "com"] [.lit "users", .par "id"]
     exprSearch (formatEndpoint "GET".toList (render P)) "GET:::api.com/users/7".toList = true ∧
@@ -189,8 +244,8 @@ example :
     exprSearch (formatEndpoint "GET".toList (render P)) "GET:::apixcom/users/7".toList = false := by
   decide
 
-/-- host-only pattern (empty path): `api.com` is registered as `GET:::api\.com$` and found for the URL
-    `api.com`; upper-case hosts are different literals for the expression (and for the engine's trie). -/
+/-- host-only pattern (empty path); upper-case hosts are different literals for the expression (and for the
+    engine's trie). -/
 example :
     let P := pat ["api", "com"] []
     safe P = true ∧ «matches» P P = true ∧ urlWF P = true ∧
@@ -199,13 +254,13 @@ example :
     exprSearch (formatEndpoint "GET".toList (render P)) "GET:::API.com".toList = false := by
   decide
 
-/-- `c14_holds_partial` speaks about non-trivial configurations: its hypothesis on the selection is
-    satisfiable, the proxy's verdict differs between requests, and the judge's verdict on them computes. -/
+/-- `c14_holds_partial` speaks about non-trivial configurations. -/
 example :
     let cfg := Cfg.flows [⟨"f1", "api.com/users/{id}", ["GET", "POST"]⟩, ⟨"f2", "api.com/v1/*", []⟩]
     (∀ n ∈ ["f1"], (findDecl (declsOf cfg) n).isSome = true) ∧
-    (registered cfg).length = 7 ∧
+    (registered cfg).length = 3 ∧
     managedB cfg "POST" "api.com/users/7" = true ∧ managedB cfg "HEAD" "api.com/users/7" = false ∧
+    managedB cfg "HEAD" "api.com/v1/a" = true ∧
     reqVerdict (declsOf cfg) "POST" "api.com/users/7" ["f1"] (managedB cfg "POST" "api.com/users/7") = .ok := by
   decide
 
